@@ -67,8 +67,9 @@ def poly_expr(draw, xs, us, ps, unsupported=None):
     if unsupported == "time":
         terms.append(["*", E.C(draw(st.sampled_from([2.0, -2.0, 1.5]))), ["t"]])
     e = terms[0]
-    for t in terms[1:]:
-        e = [draw(st.sampled_from(["+", "+", "-"])), e, t]
+    for i, t in enumerate(terms[1:]):
+        # a difference of two identical terms would cancel symbolically
+        e = [draw(st.sampled_from(["+", "+", "-"])) if all(t[2:] != o[2:] for o in terms[:i + 1]) else "+", e, t]
     # constants on either side of the polynomial part, and negation
     w = draw(st.integers(0, 5))
     if w == 0:
@@ -219,6 +220,15 @@ def check(case, ctx):
     sp["objective"] = gen.activation_objective(sp)
     spB = copy.deepcopy(sp)
     spB["constraints"] = []
+    BB = build(spB)
+    nB = NLP(BB.ocp)
+    from vlib.build import constraint_mx
+    BB.stage = BB.ocp
+    if ca.MX(constraint_mx(BB, BB.ocp, sp["constraints"][0])).is_constant():
+        # CasADi itself reduced the relation to a constant (c + x*x >= c is "1", x - x <= -1 is "0"): nothing to certify,
+        # and rockit refusing a never-satisfied relation is right
+        ctx.count("degenerate_relation")
+        return []
     try:
         BW = build(sp)
         nW = NLP(BW.ocp)
@@ -227,8 +237,6 @@ def check(case, ctx):
             ctx.count("unsupported_rejected")
             return []
         raise
-    BB = build(spB)
-    nB = NLP(BB.ocp)
     if nW.nx != nB.nx:
         raise HarnessInconclusive("variable count differs with/without the inf constraint")
     ocp = BW.ocp
@@ -248,12 +256,6 @@ def check(case, ctx):
         fails.append(Fail("base-rows-lost", feats, {}))
         return fails
     nsteps = N * M
-    from vlib.build import constraint_mx
-    BW.stage = BW.ocp
-    if len(idx) == 0 and ca.MX(constraint_mx(BW, BW.ocp, sp["constraints"][0])).is_constant():
-        # CasADi itself reduced the relation to a constant (e.g. c + x*x >= c is "1"): a vacuous constraint needs no certificate
-        ctx.count("vacuous_constraint")
-        return fails
     if len(idx) == 0:
         fails.append(Fail("no-rows-added", feats, {"note": "grid='inf' constraint accepted but nothing was imposed"}))
         return fails
